@@ -247,18 +247,32 @@ pub fn c01(tier: &str) -> i32 {
     for l in [1usize, 2, 10, 24] {
         plans.push(plan(&format!("levels {}", l), core1.clone(), l, if t { 4 } else { 3 }));
     }
+    // "an incoming (or re-priced) order": modifications, directly and as process_event(Modify)
+    let mut rp = Profile::core("core-repricing", 1, 10);
+    rp.modify = true;
+    rp.modify_prices = true;
+    rp.modify_vols = vec![1, 3];
+    plans.push(plan("core + modify (re-priced orders match by the same rules)", rp.clone(), 3, if t { 5 } else { 4 }));
+    let mut rpe = rp.clone();
+    rpe.name = "core-repricing-events-tick3".into();
+    rpe.tick = 3;
+    rpe.prices = vec![3, 6, 9];
+    rpe.events = true;
+    rpe.modify_vols = vec![3];
+    plans.push(plan("tick 3: modify through process_event", rpe, 3, if t { 4 } else { 3 }));
     with_bases(&mut plans, "core tick 1", &core1, 3, if t { 5 } else { 3 });
+    with_bases(&mut plans, "core + modify", &rp, 3, if t { 4 } else { 2 });
     execute(
         &mut out,
         plans,
         &mon,
-        &["op-with-trades", "multi-fill-sweep", "partial-fill-of-resting", "cancel-of-partially-filled", "three-queued-at-one-price"],
+        &["op-with-trades", "multi-fill-sweep", "partial-fill-of-resting", "cancel-of-partially-filled", "three-queued-at-one-price", "modify-that-trades", "modify-requeue"],
         if t { 3000 } else { 50 },
     );
     crate::absx::run_closure(
         &mut out,
         &mon,
-        &crate::absx::ClosureCfg { label: "C01: core actions + create/place", max_rest: if t { 4 } else { 3 }, max_vol: if t { 3 } else { 2 }, modify: false, toggles: false, create: true, redundant: false },
+        &crate::absx::ClosureCfg { label: "C01: core actions + create/place", max_rest: if t { 4 } else { 3 }, max_vol: if t { 3 } else { 2 }, modify: false, toggles: false, create: true, redundant: false, ties: false, prices: 3 },
         t,
     );
     out.assumptions = vec![
@@ -315,6 +329,18 @@ pub fn c02(tier: &str) -> i32 {
     }
     let main = mk("views-tick1", 1, 10);
     with_bases(&mut plans, "main tick 1", &main, 3, if t { 4 } else { 2 });
+    // separate create / place with every request (modify, cancel, reload) also aimed at the
+    // created-but-unplaced order
+    for (tick, l) in [(1u32, 3usize), (2, 4)] {
+        let mut p = mk(&format!("views-create-place-tick{}", tick), tick, 5);
+        p.create_place = true;
+        p.redundant_place = true;
+        p.prices = vec![5 * tick, 6 * tick];
+        p.limit_vols = vec![2];
+        p.market_vols = vec![1];
+        p.modify_vols = vec![1];
+        plans.push(plan(&format!("create/place separately, modify on unplaced orders, tick {}", tick), p, l, if t { 5 } else { 4 }));
+    }
     for (tick, l) in [(1u32, 10usize), (3, 10), (1, 24), (2, 5)] {
         let mut p = mk(&format!("deep-ladder-tick{}", tick), tick, 20);
         p.limit_vols = vec![1];
@@ -402,6 +428,23 @@ pub fn c04(tier: &str) -> i32 {
     core.set_time_op = true;
     plans.push(plan("core + set_time", core, 3, if t { 6 } else { 5 }));
     with_bases(&mut plans, "lifecycle", &p, 3, if t { 4 } else { 2 });
+    // C04 has no clock-discipline clause: the same requests with the clock NOT advanced
+    let mut pt = p.clone();
+    pt.name = "lifecycle-ties".into();
+    pt.dt = DtMode::ZeroOneFree;
+    pt.set_time_op = false;
+    pt.toggles = false;
+    pt.market_vols = vec![1];
+    plans.push(plan("every request on every id, clock advance {0,+1} everywhere", pt, 3, if t { 5 } else { 4 }));
+    let mut ptc = Profile::core("lifecycle-ties-core", 1, 10);
+    ptc.dt = DtMode::ZeroOneFree;
+    ptc.modify = true;
+    ptc.modify_prices = true;
+    ptc.modify_vols = vec![];
+    ptc.prices = vec![10, 11];
+    ptc.limit_vols = vec![2];
+    ptc.market_vols = vec![1];
+    plans.push(plan("core + re-pricing modifies, clock advance {0,+1}", ptc, 3, if t { 6 } else { 5 }));
     execute(
         &mut out,
         plans,
@@ -412,7 +455,7 @@ pub fn c04(tier: &str) -> i32 {
     crate::absx::run_closure(
         &mut out,
         &mon,
-        &crate::absx::ClosureCfg { label: "C04: redundant requests on every dead class in every state", max_rest: if t { 3 } else { 2 }, max_vol: 2, modify: true, toggles: true, create: true, redundant: true },
+        &crate::absx::ClosureCfg { label: "C04: redundant requests on every dead class in every state", max_rest: if t { 3 } else { 2 }, max_vol: 2, modify: true, toggles: true, create: true, redundant: true, ties: false, prices: 3 },
         t,
     );
     out.finish()
@@ -455,7 +498,7 @@ pub fn c06(tier: &str) -> i32 {
     crate::absx::run_closure(
         &mut out,
         &mon,
-        &crate::absx::ClosureCfg { label: "C06: every modify shape on every queue rank", max_rest: 3, max_vol: if t { 3 } else { 2 }, modify: true, toggles: false, create: false, redundant: false },
+        &crate::absx::ClosureCfg { label: "C06: every modify shape on every queue rank", max_rest: 3, max_vol: if t { 3 } else { 2 }, modify: true, toggles: false, create: false, redundant: false, ties: false, prices: 3 },
         t,
     );
     out.assumptions = vec!["reference model encodes the statement: only (no price, smaller volume) keeps the seat".into()];
@@ -527,7 +570,7 @@ pub fn c13(tier: &str) -> i32 {
     crate::absx::run_closure(
         &mut out,
         &mon,
-        &crate::absx::ClosureCfg { label: "C13: trading flag in the key (crossed books reachable)", max_rest: if t { 3 } else { 2 }, max_vol: 2, modify: true, toggles: true, create: false, redundant: false },
+        &crate::absx::ClosureCfg { label: "C13: trading flag in the key (crossed books reachable)", max_rest: if t { 3 } else { 2 }, max_vol: 2, modify: true, toggles: true, create: false, redundant: false, ties: false, prices: 3 },
         t,
     );
     crate::envprops::c13_env_part(&mut out, t);
@@ -568,6 +611,22 @@ pub fn c05_book(out: &mut Outcome, t: bool) {
     q.limit_vols = vec![2];
     q.market_vols = vec![3];
     plans.push(plan("create/place + toggles, clock {0,+1}", q, 3, if t { 5 } else { 4 }));
+    // books crossed while trading was off, then an aggressor whose remainder rests on a tied level
+    let mut x = core.clone();
+    x.name = "ties-crossed-start-off".into();
+    x.start_trading = false;
+    x.toggles = true;
+    x.prices = vec![10, 11];
+    x.limit_vols = vec![1, 2];
+    x.market_vols = vec![1];
+    plans.push(plan("trading off at start, toggles, two volumes, clock {0,+1}", x.clone(), 3, if t { 6 } else { 5 }));
+    let mut xm = x.clone();
+    xm.name = "ties-crossed-modify".into();
+    xm.modify = true;
+    xm.modify_prices = true;
+    xm.modify_vols = vec![1];
+    xm.limit_vols = vec![2];
+    plans.push(plan("trading off at start, toggles, modify, clock {0,+1}", xm, 3, if t { 5 } else { 4 }));
     execute(
         out,
         plans,
@@ -575,4 +634,20 @@ pub fn c05_book(out: &mut Outcome, t: bool) {
         &["state-with-tie", "dt0", "op-with-trades", "three-queued-at-one-price"],
         if t { 3000 } else { 40 },
     );
+    // unbounded-depth closure with the clock advance {0,+1} as part of every action
+    let mon2 = Monitors { reference: true, drain: true, views: true, ledger: true, life: true, ..Default::default() };
+    crate::absx::run_closure(
+        out,
+        &mon2,
+        &crate::absx::ClosureCfg { label: "C05: tie closure (clock {0,+1}, modify, toggles)", max_rest: 3, max_vol: 2, modify: true, toggles: t, create: false, redundant: false, ties: true, prices: 2 },
+        t,
+    );
+    if t {
+        crate::absx::run_closure(
+            out,
+            &mon2,
+            &crate::absx::ClosureCfg { label: "C05: tie closure, three prices, create/place", max_rest: 2, max_vol: 2, modify: true, toggles: true, create: true, redundant: false, ties: true, prices: 3 },
+            false,
+        );
+    }
 }
